@@ -94,3 +94,71 @@ SPECS = {
         "assumptions": ASSUME_COMMON,
     },
 }
+
+_TB = ("Trusted: CPython 3.12, the reference model and contracts (simkit/model.py, simkit/ops.py) "
+       "written from the documentation, stable __hash__/__eq__ of data objects. Sampling, not proof; "
+       "argument classes the documentation leaves open are excluded (listed in the evidence file).")
+
+MANIFEST_TEXT = {
+    "C01": {"engine": "HistorySim", "design_ref": "DESIGN.md section 4 C01",
+            "technique": "deterministic simulation: seeded operation/fault histories, invariant oracle after every step",
+            "level_text": "Seeded search over mutation histories with refused operations and callback "
+                          "faults; the well-formedness predicates of C01 are evaluated through the public "
+                          "API by identity after every step on every live tree. Exploration is the right "
+                          "level: the quantifier is over unbounded histories and corruption is history dependent.",
+            "level_note": _TB},
+    "C02": {"engine": "HistorySim", "design_ref": "DESIGN.md section 4 C02",
+            "technique": "deterministic simulation: seeded histories, index oracle (lookups vs. tree walk) after every step",
+            "level_text": "Seeded clone-heavy histories over all data flavours; after every step every "
+                          "lookup/clone query is compared with the carriers found by walking the tree, for "
+                          "ids and data present or absent, and every node's data_id with the rule.",
+            "level_note": _TB},
+    "C03": {"engine": "HistorySim", "design_ref": "DESIGN.md section 4 C03",
+            "technique": "deterministic simulation: seeded histories with collision steering, invariant + refusal-class oracle",
+            "level_text": "The model proposes arguments that would create a duplicate sibling by every "
+                          "route (add, copy, move, un-nest, set_data/rename, load/from_dict in the restart "
+                          "checks); the sibling-uniqueness invariant is checked after every step and every "
+                          "steered collision must raise UniqueConstraintError and leave the state unchanged.",
+            "level_note": _TB},
+    "C04": {"engine": "HistorySim", "design_ref": "DESIGN.md section 4 C04",
+            "technique": "deterministic simulation: step-by-step refinement against an executable reference model",
+            "level_text": "After every step of a seeded history the full observable state (node identity, "
+                          "data identity, data_id, kind, meta, parent, sibling order) must equal the "
+                          "reference model's. No exhaustive small-scope enumeration (that would be model "
+                          "checking); the distribution is biased to small trees.",
+            "level_note": _TB},
+    "C07": {"engine": "HistorySim", "design_ref": "DESIGN.md section 4 C07",
+            "technique": "deterministic simulation: multi-tree histories, source before/after snapshot + lock-step copy binding",
+            "level_text": "Copies between and within trees inside seeded histories; the source's state is "
+                          "compared before/after, new nodes must be new objects equal to the model's copy, "
+                          "and both sides keep mutating under their own model afterwards.",
+            "level_note": _TB},
+    "C08": {"engine": "HistorySim", "design_ref": "DESIGN.md section 4 C08",
+            "technique": "deterministic simulation: filter as state transition with per-node verdict/fault plan vs. model",
+            "level_text": "Weaker fit (quantifier is inputs): the simulator contributes the per-node "
+                          "verdict plan (returned or raised control signals at chosen invocations) and the "
+                          "states reached by long histories; result and predicate call sequence are "
+                          "compared with the documented semantics, copy form vs. in-place form.",
+            "level_note": _TB},
+    "C13": {"engine": "HistorySim", "design_ref": "DESIGN.md section 4 C13",
+            "technique": "deterministic simulation with fault enumeration: every k-th callback invocation of sampled histories raises",
+            "level_text": "Declared-invalid operations inside histories must raise and leave every tree "
+                          "observably unchanged; for sampled base histories every (step, callback kind, "
+                          "k-th invocation) fault is replayed deterministically (enumeration of fault "
+                          "positions, sampling of histories).",
+            "level_note": _TB},
+}
+
+NOT_APPLICABLE = [
+    {"property_id": "C09", "reason": "search results are a pure function of (tree, pattern/predicate, limit, key): no schedule, fault, storage, PRNG or state transition is involved; simulation would only be input generation under another name (its index-lookup half is exercised under C02 without being claimed)"},
+    {"property_id": "C10", "reason": "relationship queries are pure read-only functions of one tree state; nothing for a simulator to schedule or fail"},
+    {"property_id": "C11", "reason": "diff() is a pure function of two trees and two flags; neither input is shared with a thread or crosses a seam"},
+    {"property_id": "C15", "reason": "kind-aware queries are pure read-only functions of one typed-tree state"},
+    {"property_id": "C16", "reason": "format() is a pure function of (tree, style, title, repr, join)"},
+    {"property_id": "C17", "reason": "DOT/Mermaid/RDF exports are pure functions of (tree, options); the only seams they touch (tree lock in to_dotfile, stream writes) are decided under C18/C13"},
+]
+# properties whose checks are planned but not built yet are listed here until they exist
+for _pid in ("C05", "C06", "C12", "C14", "C18", "C19", "C20"):
+    if _pid not in SPECS:
+        NOT_APPLICABLE.append({"property_id": _pid,
+                               "reason": "check not built yet in this snapshot (planned, see DESIGN.md section 4)"})
